@@ -95,6 +95,7 @@ func (sm *StrategyManager) IncrementConnection(backend string) func() {
 		}
 		counter.Add(^uint32(0))
 		if counter.Load() == 0 {
+			verifhook.Point("lb.untrack.zero", "backend", backend)
 			sm.connectionCounters.CompareAndDelete(backend, counter)
 		}
 	}
